@@ -26,18 +26,22 @@ def register(PROPS):
                  '29/30 of every month included).  '
                  'The scales as the text interface reads them (mode text): for 9 scale names and every Gregorian day of 1901-2099 inside the calendar the day is converted with echs_instant_rescale(), '
                  'written as DTSTART;VALUE=DATE;SCALE=x:yyyymmdd (and as DTSTART;SCALE=x:yyyymmddT120000Z) of a non-recurring event and read through the parser: every event must be there and its one occurrence '
-                 '(reported in Gregorian) must be the day it was made from.',
+                 '(reported in Gregorian) must be the day it was made from.  '
+                 'Several rules in one event (mode multirule): in a calendar with CALSCALE:x (the 11 names) an event with a Gregorian DTSTART (4 days 1950-2016, DATE valued and at 12:00:00Z) carries one of 8 rule sets '
+                 '(two or three RRULEs, Gregorian and SCALE=x ones; RRULE + EXRULE; RRULE + two EXRULEs; two RRULEs + EXRULE; every rule with COUNT): the stream of the event must be, in chronological order and '
+                 'bit for bit, the duplicate-free union of the streams the same event gives with each RRULE alone, less what it gives with each EXRULE alone (written as RRULE), and every occurrence carries the '
+                 'scale label those single-rule streams carry (the conversion into the calendar\'s scale is done for every rule of an event, not only the first).',
         'note': 'The Hijri side has no external reference: the property is internal consistency.  Whether the calendars agree with published tables is not judged '
                 '(a 28-day month in the Umm al-Qura table, Sha\'ban 1364, is counted under months_reported_not_29_or_30_days, not reported).  '
                 'The last month listed in a table (its length is unknown) is not judged in either direction.',
         'rule': 'a case is one (scale, year): mode g2h = every day of one Gregorian year, mode h2g = every date of one Hijri year, mode edge = '
-                'echs_scale_ndim on the 12 months of one Hijri year 1300-1560 of a table calendar, mode interleave = all 90 ordered scale pairs over one Gregorian year, mode stream = one (rule, DTSTART, scale name) event, mode calscale = one (CALSCALE name, DTSTART, DATE or DATE-TIME) event, mode text = one (scale name, Gregorian year, DATE or DATE-TIME) calendar with one event per day; evaluations count single dates/calls resp. occurrences read resp. events written; '
+                'echs_scale_ndim on the 12 months of one Hijri year 1300-1560 of a table calendar, mode interleave = all 90 ordered scale pairs over one Gregorian year, mode stream = one (rule, DTSTART, scale name) event, mode calscale = one (CALSCALE name, DTSTART, DATE or DATE-TIME) event, mode text = one (scale name, Gregorian year, DATE or DATE-TIME) calendar with one event per day, mode multirule = one (CALSCALE name, DTSTART, rule set, DATE or DATE-TIME) event together with its single-rule events; evaluations count single dates/calls resp. occurrences read resp. events written; '
                 'cases are distinct by construction; non-trivial = at least one date of the year lies inside the calendar (g2h, h2g) resp. at least one '
-                'month of the year lies outside the table (edge) resp. the event delivered all COUNT occurrences (stream, calscale) resp. at least one day was written and all came back as themselves (text); the sanitizer passes repeat the same cases and are not counted again',
+                'month of the year lies outside the table (edge) resp. the event delivered all COUNT occurrences (stream, calscale) resp. at least one day was written and all came back as themselves (text) resp. the event with all rules delivered exactly the expected set (multirule); the sanitizer passes repeat the same cases and are not counted again',
         'bound': {
             'quick': 'complete: 10 scales x 72 683 Gregorian days (1901-2099) forward and back; 10 scales x every date of AH 1319-1522 back and forth; '
                      'month-length calls for AH 1300-1560 on both table calendars; 330 recurring events (3 rules x 10 DTSTARTs x 11 scale names) read back through the stream; 770 daily events (11 CALSCALE names x 35 DTSTARTs x 2 value types) of 1500 days each delivered in the calendar\'s scale; '
-                     '9 scale names x every day of 1901-2099 x 2 value types written in Hijri digits and read back; all of it again under ASan',
+                     '9 scale names x every day of 1901-2099 x 2 value types written in Hijri digits and read back; 704 multi-rule events (11 CALSCALE names x 4 DTSTARTs x 8 rule sets x 2 value types) against their 1672 single-rule events; all of it again under ASan',
             'thorough': 'same as quick (the domain is finite and already complete)',
         },
         'drivers': [
@@ -54,6 +58,8 @@ def register(PROPS):
             D('c15_scale', ['mode=calscale', 'nocount=1'], label='calscale-asan', variant='asan', shards=16),
             D('c15_scale', ['mode=text'], label='text', shards=16),
             D('c15_scale', ['mode=text', 'nocount=1'], label='text-asan', variant='asan', shards=16),
+            D('c15_scale', ['mode=multirule'], label='multirule', shards=4),
+            D('c15_scale', ['mode=multirule', 'nocount=1'], label='multirule-asan', variant='asan', shards=4),
         ],
         'assumptions': [
             'Gregorian day numbers and weekdays come from harness/ref/civil_c15.h (days-from-civil), self-tested over 1600-2400 at start-up',
@@ -69,6 +75,9 @@ def register(PROPS):
             'mode calscale: the scale an occurrence is judged in is the one it is labelled with, not the one the CALSCALE name says (the name reader takes HIJRI.IC / HIJRI.IIC for IA / IIA and may '
             'read a name differently depending on the bytes behind it; counted under calscale_name_read_as_other_scale, not reported: reading names is not part of the conversion); '
             'a stream that stops up to one cache fill (64 days) before the end of a table calendar is counted (calscale_ends_a_fill_before_table_end), not reported',
+            'mode multirule: a differential clause - what a single rule gives in the calendar\'s scale is judged by modes stream and calscale, here only that several rules in one event give the union '
+            '(less the exceptions) in one scale and in order; an instant two RRULEs both give may come once or twice (today once; counted, not judged); the scale judged is the label the single-rule '
+            'streams carry, not what the CALSCALE name says (name reading, see calscale); events reaching within 64 days of the end of a table calendar are left out (none with the DTSTARTs used)',
             'mode text: the names written are HIJRI, HIJRI.UMMULQURA, HIJRI.DIYANET, HIJRI.IA, HIJRI.IIA, HIJRI.IIIA, HIJRI.IIIC, HIJRI.IVA, HIJRI.IVC with SCALE= as the last parameter, '
             'directly in front of the value (HIJRI.IC and HIJRI.IIC cannot be spelled so that the name reader takes them for what they say, and a name followed by another parameter may be read as another variant; '
             'both are left out); only days inside a table calendar\'s coverage are written',
